@@ -65,7 +65,7 @@ def ser_block(e) -> str:
             chk = "1" if e.checked else "0"
         return f"( para {chk} {ser_inlines(e.children)} )"
     if isinstance(e, (block.Heading, block.SetextHeading)):
-        return f"( heading {e.level} {ser_inlines(e.children)} )"
+        return f"( heading {e.level} {'1' if isinstance(e, block.SetextHeading) else '0'} {ser_inlines(e.children)} )"
     if isinstance(e, block.List):
         return (f"( list {'1' if e.ordered else '0'} {e.start if e.ordered else 0} {S(e.bullet)} {'1' if e.tight else '0'} "
                 + " ".join(ser_block(c) for c in e.children) + " )")
